@@ -10,7 +10,7 @@
    [markers_only_at_starts]: neither "DLT\x01" nor "DLS\x01" starts anywhere but at the message starts. *)
 From Coq Require Import List NArith Bool Lia.
 From AdltV Require Import Base.Res Base.MachInt Dlt.Frame Dlt.FrameProofs Dlt.Iter Dlt.IterProofs Dlt.IterTotal Dlt.IterReader
-  Reader.LowMark Reader.LowMarkSpec Dlt.Chunk Dlt.IterSched.
+  Reader.LowMark Reader.LowMarkSpec Dlt.Chunk Dlt.IterSched Dlt.IterFast Dlt.IterFastProofs Dlt.Probe Dlt.ProbeProofs.
 Import ListNotations.
 Open Scope N_scope.
 
@@ -305,6 +305,94 @@ Proof.
   exists st, r'. split; [exact Hr|]. split; [reflexivity|]. rewrite Hs. reflexivity.
 Qed.
 
+
+(* ---------------------------------------------------------------------------------------------------------------
+   The probe of an input file (wave 7): /repo/src/utils/mod.rs get_dlt_infos_from_read / _from_file, the entry point
+   through which `adlt convert` and `adlt remote` look at every input file first (Dlt/Probe.v): ONE read() of at
+   most read_size bytes ([first_read] = what the source delivers in that read; a regular file: everything), the
+   iterator numbered from 0 over std::io::BufReader::with_capacity(read_size, Cursor(bytes read)), first message +
+   the ECU ids of all messages.  [range] = N.min read_size first_read = the bytes the probe looks at. *)
+
+(* the BufReader in between is transparent exactly because its capacity is not smaller than the bytes read:
+   the probe's messages are those of the Cursor iterator on the window *)
+Theorem C01_probe_buffer_transparent (cap read_size first_read : N) (data : bytes) :
+  blen (probe_window read_size first_read data) <= cap ->
+  probe_cap cap read_size first_read data =
+  ('(ms, _, _) <- run_iter 0 (probe_window read_size first_read data) ;; Ok (probe_of ms))%res.
+Proof. exact (probe_cap_cursor cap read_size first_read data). Qed.
+
+(* ... and not otherwise: with a buffer of 64 bytes in between (std's default is 8 KiB) a message behind 100 bytes of
+   garbage is not found although it lies well inside the 1000 bytes probed -- the iterator never asks its reader for
+   more than fill_buf shows and a std BufReader refills only when empty; the probe as coded finds it *)
+Definition probe_tight_data : bytes := repeat 85 100 ++ enc Serial tiny_msg.
+Theorem C01_probe_small_buffer_refuted :
+  probe_cap 64 1000 1000 probe_tight_data = Ok (None, []) /\
+  probe 1000 1000 probe_tight_data = Ok (Some (expect Serial 0 tiny_msg), [(68, 76, 83, 0)]).
+Proof. split; vm_compute; reflexivity. Qed.
+
+(* the first message of an in-domain stream that ends within the probed range IS the probe's first message (all
+   fields, index 0), however long the garbage in front of it and however large it is, wherever the range ends after
+   it (inside a later message, inside garbage); its ECU id is among the ECU ids collected *)
+Theorem C01_probe_finds_first_message (f : framing) (g : bytes) (a : amsg) (r : list seg) (gfin : bytes)
+    (read_size first_read : N) :
+  Forall (fun s => wf_amsg (snd s)) ((g, a) :: r) ->
+  markers_only_at_starts f ((g, a) :: r) gfin ->
+  N.min read_size first_read < u32max ->
+  blen g + blen (enc f a) <= N.min read_size first_read ->
+  exists ecus,
+    probe read_size first_read (stream f ((g, a) :: r) gfin) = Ok (Some (expect f 0 a), ecus) /\
+    In (m_ecu (expect f 0 a)) ecus.
+Proof. exact (probe_first f g a r gfin read_size first_read). Qed.
+
+(* the ECU ids collected are exactly those of the messages that lie completely inside the probed range -- [s1] -- in
+   order; the next message [s2 = (g, a) :: _], cut anywhere (in the garbage in front of it, in its headers, in its
+   payload), and everything behind the range contribute nothing; no message inside the range is lost *)
+Theorem C01_probe_ecus_exact (f : framing) (s1 s2 : list seg) (gfin : bytes) (read_size first_read : N) :
+  Forall (fun s => wf_amsg (snd s)) (s1 ++ s2) ->
+  markers_only_at_starts f (s1 ++ s2) gfin ->
+  N.of_nat (length s1) + 1 <= u32max ->
+  blen (stream f s1 []) <= N.min read_size first_read ->
+  (s2 = [] \/ exists g a r, s2 = (g, a) :: r /\
+                            N.min read_size first_read < blen (stream f s1 []) + blen g + blen (enc f a)) ->
+  probe read_size first_read (stream f (s1 ++ s2) gfin)
+  = Ok (hd_error (expect_list f 0 s1), map m_ecu (expect_list f 0 s1)).
+Proof. exact (probe_exact f s1 s2 gfin read_size first_read). Qed.
+
+(* the same for the iterator itself on the first n bytes of a stream, any start index *)
+Theorem C01_window_recovers_complete_messages (f : framing) (start : N) (s1 s2 : list seg) (gfin : bytes) (n : nat) :
+  Forall (fun s => wf_amsg (snd s)) (s1 ++ s2) ->
+  markers_only_at_starts f (s1 ++ s2) gfin ->
+  (length (stream f s1 []) <= n)%nat ->
+  (s2 = [] \/ exists g a r, s2 = (g, a) :: r /\ (n < length (stream f s1 []) + length g + length (enc f a))%nat) ->
+  start + N.of_nat (length s1) + 1 <= u32max ->
+  exists st rest, run_iter start (firstn n (stream f (s1 ++ s2) gfin)) = Ok (expect_list f start s1, st, rest).
+Proof. exact (window_run f start s1 s2 gfin n). Qed.
+
+(* the correspondence shards evaluate the accelerated forms (Dlt/IterFast.v: jump to the next frame marker instead of
+   re-measuring the input at every garbage byte; Dlt/Probe.v probe_exec): equal on EVERY input *)
+Theorem C01_fast_iter_equal (start : N) (data : bytes) : run_fast start data = run_iter start data.
+Proof. exact (run_fast_eq start data). Qed.
+Theorem C01_probe_exec_equal (read_size first_read : N) (data : bytes) :
+  probe read_size first_read data = probe_exec read_size first_read data.
+Proof. exact (probe_exec_eq read_size first_read data). Qed.
+
+(* non-vacuity: the example stream probed with read_size = 70 -- the range ends inside the third message in both
+   framings: first message = the stream's first message, ECU ids of the first two messages *)
+Example C01_probe_nonvacuous :
+  forall f,
+    probe 70 1099511627776 (stream f ex_segs ex_gfin)
+    = Ok (Some (expect f 0 (ex_msg 53 [97; 98])),
+          [(69, 67, 85, 88); match f with Storage => (69, 67, 85, 49) | Serial => (68, 76, 83, 0) end]).
+Proof.
+  intros f. destruct (C01_nonvacuous f) as (Hwf & Hm & _).
+  change ex_segs with (firstn 2 ex_segs ++ skipn 2 ex_segs) in Hwf, Hm |- *.
+  rewrite (C01_probe_ecus_exact f (firstn 2 ex_segs) (skipn 2 ex_segs) ex_gfin 70 1099511627776 Hwf Hm).
+  - destruct f; reflexivity.
+  - vm_compute. discriminate.
+  - destruct f; vm_compute; discriminate.
+  - right. eexists. eexists. eexists. split; [reflexivity|]. destruct f; vm_compute; reflexivity.
+Qed.
+
 Print Assumptions C01_iter_recovers_all.
 Print Assumptions C01_iter_recovers_all_storage.
 Print Assumptions C01_iter_recovers_all_serial.
@@ -324,3 +412,11 @@ Print Assumptions C01_incomplete_storage_frame_witness.
 Print Assumptions C01_markers_check_sound.
 Print Assumptions C01_legacy_tiny_serial_refuted.
 Print Assumptions C01_nonvacuous.
+Print Assumptions C01_probe_buffer_transparent.
+Print Assumptions C01_probe_small_buffer_refuted.
+Print Assumptions C01_probe_finds_first_message.
+Print Assumptions C01_probe_ecus_exact.
+Print Assumptions C01_window_recovers_complete_messages.
+Print Assumptions C01_fast_iter_equal.
+Print Assumptions C01_probe_exec_equal.
+Print Assumptions C01_probe_nonvacuous.
